@@ -217,7 +217,7 @@ class Program:
         self._load()
         self._link()
         if normalise:
-            from .inline import _logger_names, normalise_unused_enumerate, normalise_enumerated_dicts, normalise_get_locals, normalise_dims_copies, normalise_conditional_elements, normalise_local_generators, normalise_subset_quantifiers, normalise_next_or_raise, normalise_partials, normalise_getters, normalise_comprehension_negations, normalise_display_comprehensions, normalise_quantifier_polarity, normalise_expression_walrus, normalise_get_tests, normalise_starred_maps, normalise_self_aliases, normalise_for_else, normalise_numpy_idioms, normalise_self_conditional, normalise_walrus, normalise_match, normalise_dict_union, normalise_first_match, normalise_generator_functions, normalise_unzip_loops, normalise_accumulators, normalise_conditional_assignments, normalise_generator_arguments, normalise_ifexp, normalise_keys, normalise_suppress, strip_logging
+            from .inline import _logger_names, normalise_try_lookups, normalise_display_loops, normalise_setdefault_statements, normalise_unused_enumerate, normalise_enumerated_dicts, normalise_get_locals, normalise_dims_copies, normalise_conditional_elements, normalise_local_generators, normalise_subset_quantifiers, normalise_next_or_raise, normalise_partials, normalise_getters, normalise_comprehension_negations, normalise_display_comprehensions, normalise_quantifier_polarity, normalise_expression_walrus, normalise_get_tests, normalise_starred_maps, normalise_self_aliases, normalise_for_else, normalise_numpy_idioms, normalise_self_conditional, normalise_walrus, normalise_match, normalise_dict_union, normalise_first_match, normalise_generator_functions, normalise_unzip_loops, normalise_accumulators, normalise_conditional_assignments, normalise_generator_arguments, normalise_ifexp, normalise_keys, normalise_suppress, strip_logging
             loggers = {m.name: _logger_names(m.tree, m.resolve) for m in self.modules.values()}
             for fi in self.functions.values():
                 if fi.parent is None:
@@ -230,6 +230,7 @@ class Program:
                     self._count('normalise_subset_quantifiers', normalise_subset_quantifiers(fi.node))
                     self._count('normalise_display_comprehensions', normalise_display_comprehensions(fi.node))
                     self._count('normalise_numpy_idioms', normalise_numpy_idioms(fi.node))
+                    self._count('normalise_setdefault_statements', normalise_setdefault_statements(fi.node))
                     self._count('normalise_getters', normalise_getters(fi.node, fi.module.resolve))
                     self._count('normalise_partials', normalise_partials(fi.node, fi.module.resolve))
                     self._count('normalise_quantifier_polarity', normalise_quantifier_polarity(fi.node))
@@ -237,6 +238,8 @@ class Program:
                     self._count('normalise_match', normalise_match(fi.node))
                     self._count('normalise_walrus', normalise_walrus(fi.node))
                     self._count('normalise_expression_walrus', normalise_expression_walrus(fi.node))
+                    self._count('normalise_try_lookups', normalise_try_lookups(fi.node))
+                    self._count('normalise_display_loops', normalise_display_loops(fi.node))
                     self._count('normalise_get_locals', normalise_get_locals(fi.node))
                     self._count('normalise_get_tests', normalise_get_tests(fi.node))
                     self._count('normalise_for_else', normalise_for_else(fi.node))
@@ -256,11 +259,14 @@ class Program:
             from . import inline as _inline_mod
             _inline_mod.ENUM_CLASSES.clear()
             _inline_mod.ENUM_CLASSES.update(ci.name for ci in self.classes.values() if any(b.rsplit('.', 1)[-1] in ('Enum', 'IntEnum', 'StrEnum', 'Flag') for b in ci.bases))
-            from .inline import Inliner, load_reference, normalise_enum_values, normalise_local_tables, normalise_record_classes, normalise_compiled_patterns, normalise_literal_loops, normalise_module_constants, normalise_small_quantifiers
+            from .inline import Inliner, load_reference, normalise_attribute_loops, normalise_class_constants, normalise_enum_values, normalise_local_tables, normalise_record_classes, normalise_compiled_patterns, normalise_literal_loops, normalise_module_constants, normalise_small_quantifiers
             ref = load_reference()
             if ref is not None:
                 for m in self.modules.values():
                     self._count('normalise_module_constants', normalise_module_constants(m.tree, m.name, [fi.node for fi in self.functions.values() if fi.module is m and fi.parent is None], ref))
+                    for ci in self.classes.values():
+                        if ci.module is m:
+                            self._count('normalise_class_constants', normalise_class_constants(ci.node, ci.qualname, [f.node for f in ci.methods.values()], ref))
                     self._count('normalise_record_classes', normalise_record_classes(m.tree, m.name, [fi.node for fi in self.functions.values() if fi.module is m and fi.parent is None], ref))
             for fi in self.functions.values():
                 if fi.parent is None:
@@ -268,6 +274,7 @@ class Program:
                     self._count('normalise_compiled_patterns', normalise_compiled_patterns(fi.node))
                     self._count('normalise_display_comprehensions', normalise_display_comprehensions(fi.node))
                     self._count('normalise_literal_loops', normalise_literal_loops(fi.node))
+                    self._count('normalise_attribute_loops', normalise_attribute_loops(fi.node))
                     self._count('normalise_enum_values', normalise_enum_values(fi.node, lambda cls_, member_, _m=fi.module: self._enum_constant(_m, cls_, member_)))
                     self._count('normalise_local_tables', normalise_local_tables(fi.node))
             if ref is not None:
